@@ -37,7 +37,8 @@ ASSUMPTIONS = [
 ]
 REQUIRED = ["op:lookup", "op:lookup_overlapping", "op:lookup_bridging_query", "op:membership_area",
             "op:membership_region_link", "op:definition_cdses", "op:build_order_compare",
-            "monitor:Record.get_cds_features_within_location"]
+            "monitor:Record.get_cds_features_within_location",
+            "class:origin-spanning-gene-inside-one-part-query-not-at-0", "class:layout-scaled-to-megabase-record"]
 
 
 def _names(features):
@@ -60,6 +61,9 @@ def oracle_lookup(ctx, record, query, with_overlapping, result, case=None):
         expected = [c for c in everything if ring.contains(query, c.location)]
     got = _names(result)
     exp = _names(expected)
+    if len(query.parts) == 1 and query.start > 0 and not with_overlapping \
+            and any(ring.is_bridging(c.location) for c in expected):
+        ctx.count("class:origin-spanning-gene-inside-one-part-query-not-at-0")
     if case is None:
         case = {"L": len(record), "circular": record.is_circular(),
                 "genes": [G.to_case(c.location) for c in everything], "query": G.to_case(query),
@@ -380,8 +384,17 @@ def exhaustive_lookup(ctx, lengths, rng):
         ctx.exhaustive = True
 
 
+SCALE = 20000
+
+
+def ring_parts(query):
+    # the parts of a forward strand query in forward-travel order, as G.mk takes them
+    return list(query.parts)
+
+
 def random_lookup(ctx, count):
     rng = ctx.rng("lookup")
+    extra = ctx.rng("lookup-extra")
     for i in ctx.cases(count):
         length = rng.choice([30, 40, 60])
         circular = rng.random() < 0.5
@@ -395,6 +408,29 @@ def random_lookup(ctx, count):
             else:
                 s = rng.randrange(0, length)
                 queries.append(FeatureLocation(s, rng.randrange(s + 1, length + 1), 1))
+        if circular and extra.random() < 0.4:
+            # a gene whose intron holds the origin, neither exon touching it (as a reverse strand gene with its exons
+            # listed in ascending order reads on a circular record)
+            b1 = extra.randrange(1, 6)
+            b2 = b1 + extra.randrange(1, 8)
+            a2 = length - extra.randrange(1, 6)
+            a1 = a2 - extra.randrange(1, 8)
+            gene = G.to_case(G.mk([(a1, a2), (b1, b2)], extra.choice([1, -1])))
+            if gene not in genes:
+                genes.append(gene)
+        # one-part queries just around the exons of a gene whose intron holds the origin: the gene lies inside a
+        # location that neither starts at 0 nor crosses the origin
+        for gene in genes:
+            parts = gene["parts"]
+            if len(parts) > 1 and parts[0][0] > parts[-1][0] and extra.random() < 0.7:
+                lo, hi = min(p[0] for p in parts), max(p[1] for p in parts)
+                queries.append(FeatureLocation(max(0, lo - extra.randrange(0, 3)), min(length, hi + extra.randrange(0, 3)), 1))
+        if extra.random() < 0.1:
+            # the same layout on a record of 0.6-1.2 Mb: genes (with their introns) of several hundred kb
+            ctx.count("class:layout-scaled-to-megabase-record")
+            length *= SCALE
+            genes = [{"parts": [[a * SCALE, b * SCALE] for a, b in g["parts"]], "strand": g["strand"]} for g in genes]
+            queries = [G.mk([(part.start * SCALE, part.end * SCALE) for part in ring_parts(q)], 1) for q in queries]
         run_lookup_layout(ctx, length, circular, genes, queries, sample=i < 2)
 
 
